@@ -45,7 +45,7 @@ def roundRat (f : Fmt) (neg : Bool) (n d : Nat) : FV :=
   let (m, e) := if m == 2 ^ f.p then (2 ^ (f.p - 1), e + 1) else (m, e)
   if e > f.emax then .inf neg else if m == 0 then .fin neg 0 f.emin else .fin neg m e
 
-def numDigits (n : Nat) : Nat := (Nat.repr n).length
+def numDigits (n : Nat) : Nat := (showNat n).length
 
 /-- decimal `D * 10^x` to float, with early exits so that absurd exponents cost nothing -/
 def ofDec (f : Fmt) (neg : Bool) (D : Nat) (x : Int) : FV :=
@@ -63,12 +63,8 @@ deriving Repr, DecidableEq
 
 def lowerStr (s : Str) : Str := s.map asciiLower
 
-/-- the grammar of `f32::from_str` / `f64::from_str` -/
-def parseFloatLit (s : Str) : Option DecLit :=
-  let (neg, r) := match s with
-    | '-' :: r => (true, r)
-    | '+' :: r => (false, r)
-    | _ => (false, s)
+/-- the grammar of `f32::from_str` / `f64::from_str` after the optional sign -/
+def parseFloatBody (neg : Bool) (r : Str) : Option DecLit :=
   if r.isEmpty then none else
   let ip := r.takeWhile isDigit
   let r1 := r.dropWhile isDigit
@@ -96,6 +92,13 @@ def parseFloatLit (s : Str) : Option DecLit :=
           let ex : Int := Int.ofNat (digitsToNat ds)
           some (.num neg D ((if eneg then - ex else ex) - fl))
       else none
+
+/-- the grammar of `f32::from_str` / `f64::from_str` -/
+def parseFloatLit (s : Str) : Option DecLit :=
+  match s with
+  | '-' :: r => parseFloatBody true r
+  | '+' :: r => parseFloatBody false r
+  | _ => parseFloatBody false s
 
 def parseFloat (f : Fmt) (s : Str) : Option FV :=
   match parseFloatLit s with
@@ -150,23 +153,37 @@ def shortestGo (n d : Nat) : Nat → Nat → Nat
   | j, 0 => j
   | j, fuel + 1 => if n * 10 ^ j / d ≥ 1 then j else shortestGo n d (j + 1) fuel
 
+/-- drop trailing zeros of the digit string `c`, adjusting the decimal exponent -/
+def stripZeros : Nat → Int → Nat → Nat × Int
+  | c, sx, 0 => (c, sx)
+  | c, sx, fuel + 1 => if c != 0 && c % 10 == 0 then stripZeros (c / 10) (sx + 1) fuel else (c, sx)
+
+/-- does the digit string `c · 10^sx` (as it will be printed, without trailing zeros) read back as `m · 2^e`? -/
+def readsBack (f : Fmt) (m : Nat) (e : Int) (c : Nat) (sx : Int) : Bool :=
+  let p := stripZeros c sx 40
+  ofDec f false p.1 p.2 == .fin false m e
+
+/-- one step of the search: the two neighbours `lo ≤ num/den ≤ hi` of the exact value at this number of
+digits; if one of them reads back as the same float it is the answer (the closer one when both do) -/
+def pickDigits (f : Fmt) (m : Nat) (e : Int) (num den : Nat) (sx : Int) : Option (Nat × Int) :=
+  let lo := num / den
+  let hi := if num % den == 0 then lo else lo + 1
+  match readsBack f m e lo sx, readsBack f m e hi sx with
+  | true, true => some (stripZeros (if 2 * (num % den) ≥ den then hi else lo) sx 40)
+  | true, false => some (stripZeros lo sx 40)
+  | false, true => some (stripZeros hi sx 40)
+  | false, false => none
+
+/-- the search that DEFINES shortest round-trip printing: for 1, 2, 3, … significant digits try
+`pickDigits`; the first length that succeeds wins. `(0, 0)` when the fuel runs out. -/
 def shortestTry (f : Fmt) (m : Nat) (e : Int) (n d : Nat) (k : Int) : Nat → Nat → Nat × Int
   | _, 0 => (0, 0)
   | nd, fuel + 1 =>
     let sx : Int := k - Int.ofNat nd
-    let (num, den) := if sx ≥ 0 then (n, d * 10 ^ sx.toNat) else (n * 10 ^ (-sx).toNat, d)
-    let lo := num / den
-    let hi := if num % den == 0 then lo else lo + 1
-    let ok (c : Nat) : Bool := ofDec f false c sx == .fin false m e
-    let loOk := ok lo; let hiOk := ok hi
-    if loOk || hiOk then
-      let c := if loOk && hiOk then (if 2 * (num % den) ≥ den then hi else lo) else if loOk then lo else hi
-      (c, sx)
-    else shortestTry f m e n d k (nd + 1) fuel
-
-def stripZeros : Nat → Int → Nat → Nat × Int
-  | c, sx, 0 => (c, sx)
-  | c, sx, fuel + 1 => if c != 0 && c % 10 == 0 then stripZeros (c / 10) (sx + 1) fuel else (c, sx)
+    let q : Nat × Nat := if sx ≥ 0 then (n, d * 10 ^ sx.toNat) else (n * 10 ^ (-sx).toNat, d)
+    match pickDigits f m e q.1 q.2 sx with
+    | some r => r
+    | none => shortestTry f m e n d k (nd + 1) fuel
 
 /-- shortest round-trip digits of a finite non-zero magnitude: `(digits, exp10)` -/
 def shortest (f : Fmt) (m : Nat) (e : Int) : Nat × Int :=
@@ -174,8 +191,7 @@ def shortest (f : Fmt) (m : Nat) (e : Int) : Nat × Int :=
   let (n, d) := toRat m e
   let ip := n / d
   let k : Int := if ip > 0 then Int.ofNat (numDigits ip) else 1 - Int.ofNat (shortestGo n d 1 400)
-  let (c, sx) := shortestTry f m e n d k 1 20
-  stripZeros c sx 40
+  shortestTry f m e n d k 1 20
 
 /-- Rust `Display` for a float: plain decimal notation, shortest round-trip digits -/
 def displayFV (f : Fmt) : FV → Str
@@ -185,7 +201,7 @@ def displayFV (f : Fmt) : FV → Str
     let sgn : Str := if neg then ['-'] else []
     let (c, sx) := shortest f m e
     if c == 0 then sgn ++ ['0'] else
-    let ds := (Nat.repr c).toList
+    let ds := showNat c
     if sx ≥ 0 then sgn ++ ds ++ List.replicate sx.toNat '0'
     else
       let fr := (-sx).toNat
@@ -199,8 +215,8 @@ def display3 : FV → Str
   | .fin neg m e =>
     let (n, d) := toRat m e
     let N := divRoundEven (n * 1000) d
-    let fr := (Nat.repr (N % 1000)).toList
-    (if neg then ['-'] else []) ++ (Nat.repr (N / 1000)).toList ++ ['.'] ++ List.replicate (3 - fr.length) '0' ++ fr
+    let fr := showNat (N % 1000)
+    (if neg then ['-'] else []) ++ showNat (N / 1000) ++ ['.'] ++ List.replicate (3 - fr.length) '0' ++ fr
 
 /-- text of a duration written through `as_secs_f64` -/
 def showSecs (ns : Nat) : Str := displayFV fmt64 (asSecsF64 ns)
